@@ -158,6 +158,10 @@ func (o *Overloader) updateConnLimiter(limitConfig *LimitConfig) {
 	}
 	if o.connLimiter == nil {
 		o.connLimiter = newConnLimiter(limitConfig.MaxConn)
+		// the sessions admitted while no limit was in force are live and hold a slot each
+		o.admittedLock.Lock()
+		o.connLimiter.occupy(int32(len(o.admitted)))
+		o.admittedLock.Unlock()
 	} else if o.limitConfig.MaxConn != limitConfig.MaxConn {
 		o.connLimiter.update(limitConfig.MaxConn)
 	}
